@@ -36,5 +36,13 @@ with open(D + '/README.md', 'w') as f:
     n = len(rows)
     c = sum(1 for r in rows if r[7] == 'caught')
     f.write(f'\n{c} of {n} caught by the quick tier of the property they '
-            f'break.\n')
+            f'break (after the strengthening recorded in the remark column; '
+            f'"first evaluation: MISSED" marks the ones the checks did not '
+            f'catch when the change first arrived).\n\nDropped: a round-2 '
+            f'change for C02 (Producer.__mutate_node: `break` in the except '
+            f'handler) whose demonstration relied on get_sort raising on a '
+            f'malformed term - after the repair ad152e2 the demonstration no '
+            f'longer fails, so the change was not kept; the behaviour it '
+            f'breaks (a raising mutator must not cost other mutators their '
+            f'candidates) is what C04 isolate_hierarchical checks.\n')
 print(open(D + '/README.md').read()[-300:])
